@@ -1408,8 +1408,8 @@ def colOf (h : List String) (c : String) : Nat :=
   | .ok i => i
   | .error _ => 0
 
-def viewOf (ts : Tables) (froms : List String) (cond : List Row → Except Err Tern) : List JRow :=
-  match joinedView ts froms cond with
+def viewOf (ts : Tables) (froms : List String) (join : Join) (cond : List Row → Except Err Tern) : List JRow :=
+  match joinedView ts froms join cond with
   | .ok v => v.map Prod.snd
   | .error _ => []
 
@@ -1444,20 +1444,20 @@ theorem allOk_ok : ∀ (l : List (Except Err Row)) (rows : List Row), allOk l = 
           | tail _ hm => exact List.mem_cons_of_mem _ (h2 y hm)
 
 /-- multi-table UPDATE, one target: every record of the filtered joined view rewrites the target record of its id -/
-def updStepSpec (ts : Tables) (froms : List String) (cond : List Row → Except Err Tern)
+def updStepSpec (ts : Tables) (froms : List String) (join : Join) (cond : List Row → Except Err Tern)
     (sets : List (String × SetItem (List Row))) (acc : Tables) (tn : String) : Tables :=
   match lookupT ts tn, firstIdx tn froms with
   | some t, some p =>
     let tsets := List.map Prod.snd (sets.filter fun s => s.1 = tn)
-    let tview := List.map (fun (jr : JRow) => ((jr[p]?).map Prod.fst, jctx jr)) (viewOf ts froms cond)
+    let tview := List.map (fun (jr : JRow) => (jid p jr, jctx jr)) (viewOf ts froms join cond)
     setTable acc tn { t with rows := updateViewRows t.header tsets tview t.rows }
   | _, _ => acc
 
 /-- multi-table DELETE, one target: the records whose id occurs in the filtered joined view are removed -/
-def delStepSpec (ts : Tables) (froms : List String) (cond : List Row → Except Err Tern) (acc : Tables) (tn : String) : Tables :=
+def delStepSpec (ts : Tables) (froms : List String) (join : Join) (cond : List Row → Except Err Tern) (acc : Tables) (tn : String) : Tables :=
   match lookupT ts tn, firstIdx tn froms with
   | some t, some p =>
-    let ids := List.map (fun (jr : JRow) => (jr[p]?).map Prod.fst) (viewOf ts froms cond)
+    let ids := List.map (jid p) (viewOf ts froms join cond)
     setTable acc tn { t with rows := removeIdx (collectIds ids []) t.rows 0 }
   | _, _ => acc
 
@@ -1485,8 +1485,8 @@ def specTables (ts : Tables) : Stmt → Tables
     match lookupT ts tbl with
     | none => ts
     | some t => setTable ts tbl { t with rows := deleteSpecRows cond t.rows }
-  | .updateMulti targets froms cond sets => targets.foldl (updStepSpec ts froms cond sets) ts
-  | .deleteMulti targets froms cond => targets.foldl (delStepSpec ts froms cond) ts
+  | .updateMulti targets froms join cond sets => targets.foldl (updStepSpec ts froms join cond sets) ts
+  | .deleteMulti targets froms join cond => targets.foldl (delStepSpec ts froms join cond) ts
   | .addCols tbl pos cols =>
     match lookupT ts tbl with
     | none => ts
